@@ -521,6 +521,10 @@ class Ghost:
             self.I.call_depth, self.I.stack = depth, stack
             return Outcome("cut", value=c.loopname)
 
+    def vc_run(self, args, kwargs, node):
+        """vc.run(coroutine): drive a coroutine to completion (native: on a fresh event loop)"""
+        return self.await_(args[0], node)
+
     def vc_stash(self, args, kwargs, node):
         self.stash[args[0]] = args[1]
         return None
